@@ -304,7 +304,7 @@ def harness_plan(prop, tier, quick, thorough, min_eval=1000, policy=None, extra=
 
 def plan(prop, tier):
     if prop == "C01":
-        return harness_plan(prop, tier, [("rel", 10, 1500), ("asan", 6, 300)], [("rel", 14, 80000), ("asan", 14, 15000), ("clang-asan", 4, 5000)])
+        return harness_plan(prop, tier, [("rel", 10, 1500), ("asan", 6, 300)], [("rel", 14, 50000), ("asan", 14, 9000), ("clang-asan", 4, 3000)])
     if prop == "C02":
         return harness_plan(prop, tier, [("rel", 10, 1500), ("asan", 6, 300)], [("rel", 14, 50000), ("asan", 14, 10000)])
     if prop == "C03":
@@ -312,13 +312,13 @@ def plan(prop, tier):
     if prop == "C04":
         return harness_plan(prop, tier, [("rel", 8, 2500), ("asan", 8, 500)], [("rel", 12, 100000), ("asan", 16, 20000), ("clang-asan", 4, 5000)])
     if prop == "C05":
-        return harness_plan(prop, tier, [("rel", 10, 600), ("asan", 6, 150)], [("rel", 14, 30000), ("asan", 14, 5000)])
+        return harness_plan(prop, tier, [("rel", 10, 600), ("asan", 6, 150)], [("rel", 14, 18000), ("asan", 14, 3000)])
     if prop == "C06":
         return harness_plan(prop, tier, [("rel", 10, 300), ("asan", 6, 60)], [("rel", 14, 15000), ("asan", 14, 3000)])
     if prop == "C07":
         return harness_plan(prop, tier, [("rel", 10, 3000), ("asan", 6, 600)], [("rel", 14, 200000), ("asan", 14, 30000)])
     if prop == "C08":
-        return harness_plan(prop, tier, [("rel", 10, 400), ("asan", 6, 80)], [("rel", 14, 20000), ("asan", 14, 4000)])
+        return harness_plan(prop, tier, [("rel", 10, 400), ("asan", 6, 80)], [("rel", 14, 12000), ("asan", 14, 2400)])
     if prop == "C09":
         return harness_plan(prop, tier, [("rel", 10, 1200), ("asan", 6, 250)], [("rel", 14, 60000), ("asan", 14, 12000)])
     if prop == "C10":
@@ -344,7 +344,7 @@ def plan(prop, tier):
     if prop == "C15":
         return harness_plan(prop, tier, [("rel", 10, 1500), ("asan", 6, 300)], [("rel", 14, 60000), ("asan", 14, 12000)], level="fault_enumeration")
     if prop == "C16":
-        c = harness_plan(prop, tier, [("tsan", 8, 8), ("rel", 6, 15), ("asan", 2, 4)], [("tsan", 12, 150), ("rel", 8, 200), ("asan", 6, 30)], min_eval=1000)
+        c = harness_plan(prop, tier, [("tsan", 8, 8), ("rel", 6, 15), ("asan", 2, 4)], [("tsan", 12, 100), ("rel", 8, 150), ("asan", 6, 25)], min_eval=1000)
         c.post = frontend_threads_post
         return c
     if prop == "C18":
